@@ -275,6 +275,14 @@ def eval_case(ctx: Ctx, c: dict):
                 if rs != r:
                     ctx.fail(f"C01/constructor/{variant}-labels-differ", f"Name({lab!r}) -> {rs} but with bytes labels -> {r}", rep)
             ctx.count("validate.str-compared")
+        # unpickling runs the same validation as the constructor
+        def _unpickle():
+            o_ = object.__new__(dns.name.Name)
+            o_.__setstate__({"labels": tuple(labels)})
+            return o_
+        ru, _ = outcome(_unpickle, lambda x: enc_labels(x.labels))
+        if ru != r:
+            ctx.fail("C01/constructor/setstate-differs", f"__setstate__ with {labels!r} -> {ru} but the constructor -> {r}", rep)
     elif k == "wire":
         labels = [bytes.fromhex(x) for x in c["labels"]]
         pre, post = bytes.fromhex(c["pre"]), bytes.fromhex(c["post"])
